@@ -9,7 +9,7 @@ from cc.main import PROPS
 
 # rules whose keys contain function / module names that a harmless refactoring may change: only counts are frozen (80 %)
 COUNT_ONLY = ('R20.param', 'R17.pure', 'R16.pure', 'R19.id', 'R19.miss', 'R0.import', 'R03.space', 'R01.space', 'R10.space', 'R12.space', 'R06.space',
-              'R20.default', 'R07.keys', 'R15.fields', 'R13.round', 'R11.space', 'R18.tables', 'R14.si', 'R15.pure', 'R17.pure', 'R16.pure')
+              'R20.default', 'R07.keys', 'R15.fields', 'R13.round', 'R11.space', 'R18.tables', 'R14.si', 'R15.pure', 'R17.pure', 'R16.pure', 'R05.space', 'R18.clamp')
 
 out = {}
 prog = program('/repo/src')
